@@ -358,3 +358,4 @@ V2("C17", "index-with-place-after-imgset", [(BLD, "            folder.children =
                                              (BLD, "        if self.imgset.projection == ProjectionType.TOAST and not add_place_for_toast:", "        if self.imgset.projection == ProjectionType.TOAST:"),
                                              (FTIL, "                self.builder.place.foreground_image_set = item\n", "                self.builder.place.foreground_image_set = item\n                break\n")], "C17.R5")
 V("C17", "P-loader-break-after-place", FTIL, "                self.builder.imgset = item.foreground_image_set\n", "                self.builder.imgset = item.foreground_image_set\n                break\n", "HOLDS", note="each written list has one child")
+V("C07", "bounds-core-transform", SAMP, "            refined_lon = self._wcs.all_pix2world(refined_pix, 1)[:, 0]", "            refined_lon = self._wcs.wcs_pix2world(refined_pix, 1)[:, 0]", "C07.R10", note="the repaired F13, one site")
